@@ -58,6 +58,10 @@ def _evaluate(e, env, bits=64):
             return base[e[2]]
     if k == "fnref":
         return ("$fnref", e[1])
+    if k == "static":
+        prog_ = env.get("@prog")
+        if prog_ is not None and e[1] in prog_.statics and isinstance(prog_.statics[e[1]].get("v"), list):
+            return prog_.statics[e[1]]["v"]
     if k == "const":
         v = e[1]
         if isinstance(v, bool):
@@ -160,9 +164,16 @@ def _evaluate(e, env, bits=64):
     if k == "agg" and e[1].startswith("closure:"):
         return ("$closure", e[1][len("closure:"):], tuple(evaluate(a, env, bits) for a in e[2]))
     if k == "agg" and "::" in e[1]:
+        if len(e[2]) == 1:
+            try:
+                return ("$variant", e[1].rsplit("::", 1)[-1], evaluate(e[2][0], env, bits))
+            except Uneval:
+                pass
         return ("$variant", e[1].rsplit("::", 1)[-1])
     if k == "discr":
         v = evaluate(e[1], env, bits)
+        if isinstance(v, int) and not isinstance(v, bool) and env.get("@enum_as_int"):
+            return v
         if isinstance(v, tuple) and v and v[0] == "$variant":
             idx = {"Ok": 0, "Err": 1, "None": 0, "Some": 1, "Continue": 0, "Break": 1}.get(v[1])
             if idx is not None:
@@ -178,7 +189,13 @@ def _evaluate(e, env, bits=64):
         name = e[1].rsplit("::", 1)[-1]
         fnk = "@fn:" + name
         if fnk in env:
-            return env[fnk](*[evaluate(a, env, bits) for a in e[2]])
+            args_ = []
+            for a in e[2]:
+                try:
+                    args_.append(evaluate(a, env, bits))
+                except Uneval:
+                    args_.append(None)
+            return env[fnk](*args_)
         prog = env.get("@prog")
         if prog is not None and e[1] in prog.fns:
             # branchy in-crate helper: evaluate its if-converted return expression with the parameters bound
@@ -197,12 +214,18 @@ def _evaluate(e, env, bits=64):
                         cenv["%s.%s" % (nm, fk)] = fv
                     continue
                 if nm == "self":
-                    try:
-                        sv = evaluate(a, env, bits)
-                        if isinstance(sv, (dict, list)):
-                            cenv["self"] = sv
-                    except Uneval:
-                        pass
+                    # re-root the caller's `<arg>.field` leaves as the callee's `self.field`
+                    pref = sym.show(a)
+                    if pref != "self":
+                        for kk in [x for x in cenv if isinstance(x, str) and (x.startswith("self.") or x == "self")]:
+                            del cenv[kk]
+                        for kk, vv in env.items():
+                            if isinstance(kk, str) and kk.startswith(pref + "."):
+                                cenv["self." + kk[len(pref) + 1:]] = vv
+                        try:
+                            cenv["self"] = evaluate(a, env, bits)
+                        except Uneval:
+                            pass
                 if nm and nm != "self":
                     try:
                         cenv[nm] = evaluate(a, env, bits)
